@@ -112,6 +112,14 @@ class State(object):
             return True
         if Not(c) in self.pcset:
             return False
+        ck = _cls_atoms(c)
+        if ck is not None:
+            v, names = ck
+            self.kcls = dict(self.kcls)
+            prev = self.kcls.get(v)
+            self.kcls[v] = frozenset(names) if prev is None else (prev & frozenset(names))
+            if not self.kcls[v]:
+                return False
         if c.op == 'is':
             self.kctor = dict(self.kctor)
             self.kctor[c.args[1]] = c.args[0]
@@ -147,6 +155,32 @@ class State(object):
     @property
     def running(self):
         return self.status == 'run'
+
+
+CID2NAME = {}      # class id -> class name (filled by the heap executor)
+
+
+def _cls_atom(c):
+    """(cls_of (rv X)) == <int>  ->  (X, name)"""
+    if c.op == '=' and len(c.args) == 2:
+        a, b = c.args
+        if b.op == 'app' and a.op == 'int':
+            a, b = b, a
+        if a.op == 'app' and a.args[0] == 'cls_of' and b.op == 'int' and a.args[1].op == 'acc' \
+                and a.args[1].args[0] == 'rv' and b.args[0] in CID2NAME:
+            return a.args[1].args[1], CID2NAME[b.args[0]]
+    return None
+
+
+def _cls_atoms(c):
+    one = _cls_atom(c)
+    if one is not None:
+        return one[0], [one[1]]
+    if c.op == 'or':
+        parts = [_cls_atom(x) for x in c.args]
+        if all(p is not None for p in parts) and len({p[0] for p in parts}) == 1:
+            return parts[0][0], [p[1] for p in parts]
+    return None
 
 
 # ---------------------------------------------------------------------------------------------
@@ -945,7 +979,7 @@ class Executor(object):
             for g in groups:
                 g0 = g[0][0]
                 if g0.heap == o.heap and g0.env == o.env and len(g0.obls) == len(o.obls) \
-                        and g0.log == o.log and g0.kcls == o.kcls:
+                        and g0.log == o.log:
                     g.append((o, v))
                     placed = True
                     break
@@ -969,6 +1003,13 @@ class Executor(object):
             for (o, v), c in zip(reversed(g[:-1]), reversed(conds[:-1])):
                 val = Ite(c, v, val)
             m = g[0][0].copy()
+            common = dict(g[0][0].kcls)
+            for o, _ in g[1:]:
+                for k in list(common):
+                    if k not in o.kcls:
+                        del common[k]
+                    elif o.kcls[k] != common[k]:
+                        common[k] = common[k] | o.kcls[k]
             m.pc, m.pcset, m.kctor, m.xctor = [], set(), {}, {}
             for c in prefix:
                 m._add(c)
@@ -976,6 +1017,7 @@ class Executor(object):
                 # in spec mode the split-off exceptional paths were proved infeasible, so the
                 # disjunction of the branch conditions is implied by the prefix
                 m._add(Or(*conds))
+            m.kcls = common
             m.trace = list(base.trace)
             res.append((m, val))
         return res + other
